@@ -189,7 +189,7 @@ func TestC02_RandomPrograms(t *testing.T) {
 		"random programs biased to @if chains (0..3 @elseif, optional @else, nesting to depth 3, inside loops and other branches) whose conditions are literals of every type and truthiness, data-supplied values, expressions, or failing expressions; bodies are unique markers plus nested constructs; expected rendering from the reference interpreter. Non-trivial: an @elseif chain exists and (a branch with index >= 1 or @else was taken, or a failing/non-boolean condition occurs, or an @if sits inside a loop). Distinct by hash of source + data.")
 	defer c.Finish()
 	in := interp()
-	runRapid(t, c, 12000, 40000, func(rt *rapid.T) {
+	runRapid(t, c, 12000, 120000, func(rt *rapid.T) {
 		env := genProgEnv().Draw(rt, "data")
 		g := newProgGen(rt, env)
 		g.wIf, g.wLoop, g.wAssign, g.wCtl = 7, 2, 1, 1
